@@ -208,6 +208,56 @@ def _classify_hint(c, p, k):
         _hit(f"{kind}:replace-at-hint")
 
 
+def _parse_wb(txt):
+    """in-order list of (height, left subtree or None, right subtree or None) from the white-box rendering
+    `(left id/key:h:s^par right)` / `.`; a subtree is the tuple itself"""
+    pos = 0
+    order = []
+
+    def node():
+        nonlocal pos
+        if txt[pos] == ".":
+            pos += 1
+            return None
+        pos += 1                                   # (
+        left = node()
+        pos += 1                                   # space
+        j = txt.index(" ", pos)
+        h = int(txt[pos:j].split(":")[1])
+        pos = j + 1
+        me = [h, left, None]
+        order.append(me)
+        me[2] = node()
+        pos += 1                                   # )
+        return me
+
+    try:
+        node()
+    except (ValueError, IndexError):
+        return None
+    return order
+
+
+def _classify_remove(wb, p):
+    """which path of remove(it) the removal of the item at in-order position p takes (evidence: branch_hits)"""
+    if not wb:
+        return
+    tree = _parse_wb(wb.split(" ord", 1)[0])
+    if tree is None or p >= len(tree):
+        return
+    h, left, right = tree[p]
+    if left is None and right is None:
+        _hit("remove:leaf")
+    elif left is None:
+        _hit("remove:right-child-only")
+    elif right is None:
+        _hit("remove:left-child-only")
+    elif left[0] < right[0]:
+        _hit("remove:two-children-successor-" + ("adjacent" if right[1] is None else "deeper"))
+    else:
+        _hit("remove:two-children-predecessor-" + ("adjacent" if left[2] is None else "deeper"))
+
+
 def _ret_pos(line):
     m = re.match(r"it=(\d+) ", line or "")
     return int(m.group(1)) if m else None
@@ -217,6 +267,12 @@ def reference(hist, impl_out):
     cs = [Ref(False), Ref(True), Ref(False), Ref(True)]
     lo, hi, lvl = 0, -1, 2
     out = []
+    last_wb = [None, None, None, None]             # white-box part of the implementation's last line per container
+
+    def note_wb(ci, n):
+        l = impl_out[n] if n < len(impl_out) and impl_out[n] else ""
+        last_wb[ci] = l.split(" # ", 1)[1] if " # " in l else None
+
     for n, line in enumerate(hist):
         t = line.split()
         if t[0] == "dom":
@@ -257,11 +313,13 @@ def reference(hist, impl_out):
             cm = f"c<={2 * height_bound(n0)}"
             i = c.find(a[0])
             if i is not None:
+                _classify_remove(last_wb[ci], i)
                 c.remove_at(i)
         elif op == "rmat":
             if a[0] >= n0:
                 out.append("bad-op")
                 continue
+            _classify_remove(last_wb[ci], a[0])
             c.remove_at(a[0])
             ret = f"it={a[0]}"
         elif op in ("rmfront", "rmback"):
@@ -269,6 +327,7 @@ def reference(hist, impl_out):
                 out.append("bad-op")
                 continue
             p = 0 if op == "rmfront" else n0 - 1
+            _classify_remove(last_wb[ci], p)
             c.remove_at(p)
             ret = f"it={p}"
         elif op == "clear":
@@ -303,6 +362,7 @@ def reference(hist, impl_out):
         else:
             out.append("bad-op")
             continue
+        note_wb(ci, n)
         s = f"{ret} {cm} n={c.size()}"
         if lvl >= 1:
             s += " |" + "".join(f" {k}:{v}" for k, v in zip(c.keys, c.vals))
